@@ -24,7 +24,7 @@ func zzStripHRRVariable(h *zzRefHello) []zzRefExt {
 //verif:doc processHelloRetryRequest for every TLS 1.3 parrot without PSK/ECH (thorough; every fifth parrot in the quick tier), HelloRetryRequest with an arbitrary 16-bit selected group and a cookie that is absent or 1..3 arbitrary bytes: it proceeds only if the group was listed in supported_groups, had no share and is a classical group; then the second ClientHello (the bytes written to the connection = Hello.Raw) equals the first except key_share (exactly one share for the requested group carrying the new key's public bytes), cookie (echoing the server's bytes) and padding; pre_shared_key-last and strict syntax hold for every PRNG value used to place the cookie.
 func zzC17HRRChangesOnlyAllowed() {
 	p := zzChooseParrotSample()
-	spec, _ := UTLSIdToSpec(p.id)
+	spec, _ := zzRefSpec(p.id)
 	hasKS, hasPSK, hasECH := false, false, false
 	for _, e := range spec.Extensions {
 		switch e.(type) {
